@@ -40,6 +40,9 @@ type segCase struct {
 	// Prelude > 0 (level B): before the connection under test, another client connects, sends only the first Prelude
 	// bytes of the first request and disconnects; nothing of it may leak into the connection under test
 	Prelude int `json:"prelude,omitempty"`
+	// Interloper > 0 (level B): while the connection under test works, a second connection holds the first Interloper bytes of
+	// a valid request (incomplete frame); afterwards it sends the rest and must get exactly its own reply
+	Interloper int `json:"interloper,omitempty"`
 }
 
 // errorUnit: requests with a unit id at or above this are answered by the handler with a typed error
@@ -198,6 +201,7 @@ func runAssembler(c segCase, p plan, ref []byte) (err error) {
 }
 
 func runServer(c segCase, p plan, ref []byte) error {
+	var finishInterloper func() error
 	l := xport.NewPipeListener()
 	h := &srv.Handler{Dev: device.New(c.DevSeed), ErrorFromUnit: errorUnit}
 	closedConns := make(chan struct{}, 8)
@@ -231,6 +235,39 @@ func runServer(c segCase, p plan, ref []byte) error {
 		case <-time.After(3 * time.Second):
 		}
 	}
+	var ilConn net.Conn
+	var ilCol *srv.Collector
+	ilReq := spec.EncodeRequest(spec.TCP, spec.Req{FC: 3, Unit: 77, Tx: 0xAAAA, Addr: 300, Qty: 4})
+	if c.Interloper > 0 && c.Interloper < len(ilReq) {
+		ilConn, err := l.Dial()
+		if err != nil {
+			return fmt.Errorf("harness: dial: %v", err)
+		}
+		defer ilConn.Close()
+		ilCol = srv.Collect(ilConn)
+		_ = ilConn.SetWriteDeadline(time.Now().Add(5 * time.Second))
+		if _, err := ilConn.Write(ilReq[:c.Interloper]); err != nil {
+			return fmt.Errorf("second connection: server did not read: %v", err)
+		}
+		defer func(ic net.Conn) { _ = ic }(ilConn)
+		// finish the interloper's request after the main stream (see below) through this closure
+		finishInterloper = func() error {
+			if _, err := ilConn.Write(ilReq[c.Interloper:]); err != nil {
+				return fmt.Errorf("second connection: write failed: %v", err)
+			}
+			want := device.New(c.DevSeed).Answer(spec.TCP, ilReq)
+			got := ilCol.WaitLen(len(want), 3*time.Second)
+			if len(got) < len(want) {
+				got = ilCol.WaitLen(len(want), 12*time.Second)
+			}
+			got = ilCol.WaitQuiet(40*time.Millisecond, time.Second)
+			if !bytes.Equal(got, want) {
+				return fmt.Errorf("a second connection that held %d bytes of its request %x while the first connection was served received %x, want %x: connections disturb each other", c.Interloper, ilReq, got, want)
+			}
+			return nil
+		}
+	}
+	_ = ilConn
 	conn, err := l.Dial()
 	if err != nil {
 		return fmt.Errorf("harness: dial: %v", err)
@@ -277,6 +314,9 @@ func runServer(c segCase, p plan, ref []byte) error {
 	}
 	if closed, _ := col.Closed(); closed {
 		return fmt.Errorf("server closed the connection after valid requests; segments %s", describe(p))
+	}
+	if finishInterloper != nil {
+		return finishInterloper()
 	}
 	return nil
 }
@@ -364,6 +404,9 @@ func genSeg(t *rapid.T, level string) segCase {
 	if level == "B" && rapid.IntRange(0, 2).Draw(t, "with_prelude") == 0 {
 		first := p.ends[0]
 		c.Prelude = rapid.IntRange(1, first-1).Draw(t, "prelude")
+	}
+	if level == "B" && rapid.IntRange(0, 2).Draw(t, "with_interloper") == 0 {
+		c.Interloper = rapid.IntRange(1, 11).Draw(t, "interloper")
 	}
 	if level == "B" {
 		// the server reads at most 300 bytes per read: keep segments <= 300 so that one write is one read
